@@ -776,10 +776,11 @@ impl<'p, W, R, T> CompilationScope<'p, W, R, T> {
                     }
                     None => return Err(CompilationError::ValueNotFound { name }),
                 };
+                // a function taken as a value can be invoked through it: it needs its forwards like a call does
+                self.require_forwards(forward_requirements)?;
                 let new_cell_idx = if height == self.height {
                     cell_idx
                 } else {
-                    self.require_forwards(forward_requirements)?;
                     let new_cell = Cell::Capture {
                         ancestor_depth: self.height - height,
                         cell_idx,
